@@ -26,5 +26,75 @@ func treeSort(top *token) *token {
 	sort.SliceStable(tt, func(ai, bi int) bool {
 		return rank(tt[ai]) > rank(tt[bi])
 	})
+	// the named non-struct types are resolved in the order they are compiled as well: one
+	// that mentions another (type Grid []Row; type Row []int) comes after it
+	var named []*token
+	for _, t := range tt {
+		if rank(t) == priority["type"]+5 {
+			named = append(named, t)
+		}
+	}
+	ordered := typeOrder(named)
+	k := 0
+	for i, t := range tt {
+		if rank(t) == priority["type"]+5 && k < len(ordered) {
+			tt[i] = ordered[k]
+			k++
+		}
+	}
 	return top
+}
+
+// typeOrder returns the type declarations with each one after the declarations it
+// mentions; declarations that do not depend on each other, and the members of a cycle,
+// keep their order.
+func typeOrder(decls []*token) []*token {
+	pending := map[string]bool{}
+	for _, d := range decls {
+		if len(d.Tokens) > 0 {
+			pending[d.Tokens[0].Text] = true
+		}
+	}
+	done := map[*token]bool{}
+	res := make([]*token, 0, len(decls))
+	for range decls { // each round places one declaration
+		var pick *token
+		for _, d := range decls {
+			if done[d] {
+				continue
+			}
+			if pick == nil {
+				pick = d // what is left of a cycle goes out in declared order
+			}
+			if len(d.Tokens) > 1 && !mentionsPending(d.Tokens[1], d.Tokens[0].Text, pending) {
+				pick = d
+				break
+			}
+		}
+		if pick == nil {
+			break
+		}
+		done[pick] = true
+		if len(pick.Tokens) > 0 {
+			delete(pending, pick.Tokens[0].Text)
+		}
+		res = append(res, pick)
+	}
+	return res
+}
+
+// mentionsPending: the type expression names a pending type other than self.
+func mentionsPending(t *token, self string, pending map[string]bool) bool {
+	switch t.Symbol {
+	case "(name)":
+		return t.Text != self && pending[t.Text]
+	case ".":
+		return false // a type of another package
+	}
+	for _, sub := range t.Tokens {
+		if mentionsPending(sub, self, pending) {
+			return true
+		}
+	}
+	return false
 }
